@@ -324,6 +324,87 @@ theorem C13_two_phase (opts : Dict α) (cd : Option (Dict α)) (r : ScState α) 
             obtain ⟨rfl, rfl⟩ := hp
             exact ⟨p', rfl, he⟩
 
+theorem sameSet_mem (a b : List String) (h : sameSet a b = true) (x : String) : x ∈ a ↔ x ∈ b := by
+  simp only [sameSet, Bool.and_eq_true, List.all_eq_true, List.contains_eq_mem, decide_eq_true_eq] at h
+  exact ⟨h.1 x, h.2 x⟩
+
+theorem branchExits_iff (b : Branch) : branchExits b = true ↔ Action.exit ∈ b.actions := by
+  simp only [branchExits, List.any_eq_true]
+  constructor
+  · rintro ⟨a, ha, h⟩
+    cases a <;> simp at h
+    exact ha
+  · intro h
+    exact ⟨.exit, h, rfl⟩
+
+theorem mem_branchCalls (b : Branch) (n : String) : n ∈ branchCalls b ↔ Action.call n ∈ b.actions := by
+  simp only [branchCalls, List.mem_filterMap]
+  constructor
+  · rintro ⟨a, ha, h⟩
+    cases a <;> simp at h
+    subst h; exact ha
+  · intro h
+    exact ⟨.call n, h, rfl⟩
+
+theorem mem_itemFamilies (items : List DispItem) (f : String) (h : f ∈ (itemFamilies items).flatten) :
+    ∃ o brs d b0, DispItem.family o brs d ∈ items ∧ brs.find? (fun b => !branchExits b) = some b0 ∧
+      f ∈ (branchCalls b0).flatMap callFamily := by
+  induction items with
+  | nil => simp [itemFamilies] at h
+  | cons it t ih =>
+    cases it with
+    | family o brs d =>
+      simp only [itemFamilies, List.flatten_cons, List.mem_append] at h
+      rcases h with h | h
+      · cases hb : brs.find? (fun b => !branchExits b) with
+        | none => simp [hb] at h
+        | some b0 =>
+          simp only [hb] at h
+          exact ⟨o, brs, d, b0, List.mem_cons_self, hb, h⟩
+      · obtain ⟨o', brs', d', b0, hm, hb, hf⟩ := ih h
+        exact ⟨o', brs', d', b0, List.mem_cons_of_mem _ hm, hb, hf⟩
+    | stmt st =>
+      simp only [itemFamilies] at h
+      obtain ⟨o', brs', d', b0, hm, hb, hf⟩ := ih h
+      exact ⟨o', brs', d', b0, List.mem_cons_of_mem _ hm, hb, hf⟩
+    | override ov =>
+      simp only [itemFamilies] at h
+      obtain ⟨o', brs', d', b0, hm, hb, hf⟩ := ih h
+      exact ⟨o', brs', d', b0, List.mem_cons_of_mem _ hm, hb, hf⟩
+
+/-- **every accepted option dictionary has applied every family**: when `set_depending_on_option` returns,
+    `check_all_set` holds — whatever the options, the country row and the overrides were -/
+theorem C13_accepted_all_set (opts : Dict α) (cd : Option (Dict α)) (s : ScState α)
+    (h : setDependingOnOption opts cd = .ok s) : checkAllSet s = true := by
+  unfold setDependingOnOption at h
+  obtain ⟨_, _, h⟩ := bind_eq_ok h
+  obtain ⟨iso, _, h⟩ := bind_eq_ok h
+  obtain ⟨copy, _, h⟩ := bind_eq_ok h
+  simp only [checkAllSet, List.all_eq_true, decide_eq_true_eq]
+  intro f hf
+  obtain ⟨hu, _, hs⟩ := C13_dispatch_covers_every_family
+  have hmem := (sameSet_mem _ _ hs f).mpr hf
+  obtain ⟨o, brs, d, b0, hm, hb0, hfb0⟩ := mem_itemFamilies dispatch f hmem
+  have hd : d = none := by
+    have := List.all_eq_true.mp C13_every_family_required_no_default _ hm
+    simp only [Bool.and_eq_true, Option.isNone_iff_eq_none] at this
+    exact this.2
+  subst hd
+  obtain ⟨b, hb, hx, hc⟩ := execItems_family copy cd dispatch ScState.init s C13_table_wellformed h o brs hm
+  have hun := List.all_eq_true.mp hu _ hm
+  simp only [uniformItem, Option.isNone_none, Bool.true_and, List.all_eq_true] at hun
+  have hb' := hun b hb
+  have hne : branchExits b = false := by
+    cases hbe : branchExits b with
+    | false => rfl
+    | true => exact (hx ((branchExits_iff b).mp hbe)).elim
+  simp only [hne, Bool.false_or, Bool.and_eq_true, hb0] at hb'
+  have hfb : f ∈ (branchCalls b).flatMap callFamily := (sameSet_mem _ _ hb'.2 f).mpr hfb0
+  obtain ⟨n, hn, hfn⟩ := List.mem_flatMap.mp hfb
+  obtain ⟨i, hi, hfam⟩ := hc n ((mem_branchCalls b n).mp hn)
+  simp only [callFamily, hi] at hfn
+  exact hfam f hfn
+
 /-- the known-to-fail patch works on a copy and changes at most the one key its rule names -/
 theorem C13_patch_frame (iso : String) (opts copy : Dict α) (h : alterOptions iso opts failRules = .ok copy) :
     copy = opts ∨ ∃ r ∈ failRules, ruleMatches opts r.conds = true ∧ iso = r.iso3 ∧
